@@ -78,3 +78,25 @@ func Restore() {
 	cryptRand.Reader = orig
 	csrand.Reader = orig
 }
+
+// ScriptIntn returns the 8 bytes that make the next csrand/math-rand
+// Intn(n) (n < 2^31) return idx.
+func ScriptIntn(idx int) []byte {
+	var b [8]byte
+	binary.BigEndian.PutUint64(b[:], uint64(idx)<<32)
+	return b[:]
+}
+
+// ScriptFloat64 returns the 8 bytes that make the next Float64() return
+// exactly f (f must be k/2^53, 0 <= f < 1): math/rand computes
+// float64(Int63()) / 2^63.
+func ScriptFloat64(f float64) []byte {
+	var b [8]byte
+	binary.BigEndian.PutUint64(b[:], uint64(f*(1<<53))<<10)
+	return b[:]
+}
+
+// ScriptSample scripts one WeightedDist.Sample(): die roll idx, coin f.
+func ScriptSample(idx int, f float64) []byte {
+	return append(ScriptIntn(idx), ScriptFloat64(f)...)
+}
